@@ -1735,3 +1735,28 @@ def unsafe_open_parents_popped_in_a_list_sorted_by_the_caller(sorted_names: list
         closest[name] = open_parents[-1] if open_parents else None
         open_parents.append(name)
     return closest
+
+
+# ----------------------------------------------------------------------------- elements a helper selected for the other name
+
+
+def _helper_below_by_whole_components(module: Node, listed: list[Node]) -> list[Node]:
+    return [name for name in listed if name == module or name.startswith(f"{module}.")]
+
+
+def safe_cut_of_elements_selected_by_helper(module: Node, listed: list[Node], alias: str) -> dict[str, str]:
+    labels = {}
+    for name in _helper_below_by_whole_components(module, listed):
+        labels[name] = alias + name[len(module) :]
+    return labels
+
+
+def _helper_below_by_raw_prefix(module: Node, listed: list[Node]) -> list[Node]:
+    return [name for name in listed if name.startswith(module)]
+
+
+def notsafe_cut_of_elements_selected_by_raw_helper(module: Node, listed: list[Node], alias: str) -> dict[str, str]:
+    labels = {}
+    for name in _helper_below_by_raw_prefix(module, listed):
+        labels[name] = alias + name[len(module) :]
+    return labels
